@@ -20,6 +20,15 @@ import (
 
 const Root = "/verif"
 
+// outRoot is where evidence and replay files go: /verif, or a scratch directory when a
+// check is run against a development copy of the repository (bin/check with VERIF_REPO).
+func outRoot() string {
+	if d := os.Getenv("VERIF_DEV_OUT"); d != "" {
+		return d
+	}
+	return Root
+}
+
 // Violation is one failed oracle clause on one explored case.
 type Violation struct {
 	Property string `json:"property"`
@@ -236,8 +245,8 @@ func (r *Run) Finish() {
 	}
 	if r.replayArg == "" {
 		data, _ := json.MarshalIndent(ev, "", " ")
-		os.MkdirAll(filepath.Join(Root, "evidence"), 0o755)
-		if err := os.WriteFile(filepath.Join(Root, "evidence", r.Prop+".json"), append(data, '\n'), 0o644); err != nil {
+		os.MkdirAll(filepath.Join(outRoot(), "evidence"), 0o755)
+		if err := os.WriteFile(filepath.Join(outRoot(), "evidence", r.Prop+".json"), append(data, '\n'), 0o644); err != nil {
 			fmt.Fprintln(os.Stderr, "cannot write evidence:", err)
 			os.Exit(2)
 		}
@@ -258,11 +267,11 @@ func (r *Run) Finish() {
 		fmt.Printf("OK property=%s\n", r.Prop)
 		os.Exit(0)
 	}
-	os.MkdirAll(filepath.Join(Root, "replays"), 0o755)
+	os.MkdirAll(filepath.Join(outRoot(), "replays"), 0o755)
 	for _, v := range r.unlisted {
 		data, _ := json.MarshalIndent(v, "", " ")
 		h := sha256.Sum256(data)
-		path := filepath.Join(Root, "replays", fmt.Sprintf("%s-%s-%s.json", r.Prop, sanitize(v.Kind), hex.EncodeToString(h[:4])))
+		path := filepath.Join(outRoot(), "replays", fmt.Sprintf("%s-%s-%s.json", r.Prop, sanitize(v.Kind), hex.EncodeToString(h[:4])))
 		os.WriteFile(path, append(data, '\n'), 0o644)
 		fmt.Printf("  kind=%s site=%s detail=%s (total of this kind/site: %d)\n", v.Kind, v.Site, v.Detail, r.unlistedN[v.Kind+"|"+v.Site])
 		fmt.Printf("VIOLATION property=%s replay=%s\n", r.Prop, path)
